@@ -487,6 +487,21 @@ func RunC10(c *Ctx) {
 		workload.W2(200, c.Seed, sink)
 		workload.W5([]int{1000, 70000, 1 << 20}, sink)
 	}
+	// sizes: every length 1..600 of every repeatable unit (keys, strings, digits, whitespace, members),
+	// power-of-two string lengths, widths and sibling patterns, every depth 1..130 with every last
+	// opener - a table indexed by a length or a count is the classic place for an off-by-one panic
+	// (seeded change C10r8-m2: a 64-slot per-length key cache with a guard of '> 64'); thinned to a
+	// third in the quick tier
+	third := func(cs *h.Case) {
+		if c.Thorough() || (cs.P[1]+int(c.Seed))%3 == 0 {
+			sink(cs)
+		}
+	}
+	workload.W1Len(third)
+	workload.W1Pow(sink)
+	workload.W1Width(third)
+	workload.W1Depth(third)
+	workload.W1RL(third)
 	// number and string token families: every decimal exponent, thresholds, every surrogate
 	workload.W6Exponents(3, c.Seed, sink)
 	workload.W6Special(sink)
